@@ -132,6 +132,17 @@ def handle (kind : String) (args : List String) (impl : String) : String :=
           else ""
         let ss := if sp == "" then "" else s!"SPEC {sp} impl={impl}"
         if d == "" && ss == "" then "ok" else d ++ (if d != "" && ss != "" then " ; " else "") ++ ss
+  | "c09.replace", [] =>
+    -- `Props.C09t.stop_leaves_nothing_running`: whatever connections were made while the host list was being replaced, Stop closes them all
+    let up := (field impl "up").splitOn "/"
+    let sp :=
+      if impl == "not-parked" then "pause-point-client.start.drain-not-reached"
+      else if field impl "stop" != "ok" then "stop-does-not-return"
+      else if up.getD 0 "a" != up.getD 1 "b" then "upstream-connection-left-open-after-stop"
+      else if field impl "leaked" != "0" then "goroutines-left-after-stop"
+      else if (impl.splitOn "unserved").length > 1 then "request-not-served"
+      else ""
+    if sp == "" then "ok" else s!"SPEC {sp} impl={impl}"
   | "c09.redir", [_] =>
     -- `Props.C09u.upstream_stop_completes`: Stop returns, both backend connections are closed, nothing is left running —
     -- also when the read loop was past the quit check of MakeRequestToHost when Stop closed quit
